@@ -126,6 +126,15 @@ func linEval(v ssa.Value, env layEnv, depth int) linExpr {
 			}
 			return linExpr{syms: map[string]int64{lenSym(a, env): 1}, ok: true}
 		}
+		// copy returns the number of bytes copied: len(src) whenever the destination has room,
+		// which is what the exact-fill verdict itself establishes
+		if core.CalleeName(x) == "builtin:copy" && len(x.Call.Args) == 2 {
+			src := env.subst(x.Call.Args[1])
+			if sv, ok := core.ConstString(src); ok {
+				return linConst(int64(len(sv)))
+			}
+			return linExpr{syms: map[string]int64{lenSym(src, env): 1}, ok: true}
+		}
 		// a module helper returning an offset (one return statement, linear in its inputs)
 		if cal := x.Common().StaticCallee(); cal != nil && len(cal.Blocks) > 0 && cal.Signature.Results().Len() == 1 {
 			rets := core.Returns(cal)
@@ -190,6 +199,11 @@ func layoutCheck(p *core.Prog, fn *ssa.Function) (ok bool, desc string, segs []s
 // handed the buffer (or a tail of it) are collected too, with the helper's
 // parameters bound to the arguments.
 func layoutCheckBuf(p *core.Prog, fn *ssa.Function, buf *ssa.MakeSlice) (ok bool, desc string, segs []segment, total linExpr) {
+	// a buffer made with length 0 and built by appends cannot have gaps: its layout is the
+	// sequence of appended pieces
+	if k, isC := core.ConstInt(buf.Len); isC && k == 0 {
+		return appendLayout(p, fn, buf)
+	}
 	total = linEval(buf.Len, nil, 0)
 	if !total.ok {
 		return false, "buffer length is not linear in input lengths", nil, total
@@ -304,4 +318,53 @@ func layoutCheckBuf(p *core.Prog, fn *ssa.Function, buf *ssa.MakeSlice) (ok bool
 		return false, fmt.Sprintf("writes end at %s but the buffer has length %s (%s)", cur, total, strings.Join(chain, " ")), segs, total
 	}
 	return true, strings.Join(chain, " "), segs, total
+}
+
+// appendLayout reads the layout of a buffer that starts empty and is extended
+// only by append: the chain of appends from the make to the returned value.
+func appendLayout(p *core.Prog, fn *ssa.Function, buf *ssa.MakeSlice) (bool, string, []segment, linExpr) {
+	var ret ssa.Value
+	for _, r := range core.Returns(fn) {
+		if len(r.Results) > 0 {
+			ret = r.Results[0]
+		}
+	}
+	var pieces []segment
+	v := ret
+	for i := 0; i < 16 && v != nil; i++ {
+		if v == ssa.Value(buf) {
+			break
+		}
+		call, ok := v.(*ssa.Call)
+		if !ok || core.CalleeName(call) != "builtin:append" || len(call.Call.Args) != 2 {
+			return false, "the buffer is not built by a plain chain of appends", nil, linExpr{}
+		}
+		arg := call.Call.Args[1]
+		var seg segment
+		if el := elemOfVarargs(arg); el != nil {
+			seg = segment{what: "byte(" + valDesc(el) + ")", pos: p.InstrPos(call)}
+			seg.end = linConst(1)
+		} else if sv, isC := core.ConstString(arg); isC {
+			seg = segment{what: fmt.Sprintf("copy(#%d)", len(sv)), pos: p.InstrPos(call)}
+			seg.end = linConst(int64(len(sv)))
+		} else {
+			seg = segment{what: "copy(" + lenSym(arg, nil) + ")", pos: p.InstrPos(call)}
+			seg.end = linExpr{syms: map[string]int64{lenSym(arg, nil): 1}, ok: true}
+		}
+		pieces = append([]segment{seg}, pieces...)
+		v = call.Call.Args[0]
+	}
+	if v != ssa.Value(buf) || len(pieces) == 0 {
+		return false, "the returned value is not the appended buffer", nil, linExpr{}
+	}
+	cur := linConst(0)
+	var chain []string
+	for i := range pieces {
+		l := pieces[i].end
+		pieces[i].start = cur
+		pieces[i].end = cur.add(l, 1)
+		cur = pieces[i].end
+		chain = append(chain, fmt.Sprintf("[%s..%s)=%s", pieces[i].start, pieces[i].end, pieces[i].what))
+	}
+	return true, strings.Join(chain, " "), pieces, cur
 }
